@@ -12,7 +12,7 @@ import random
 from datetime import datetime, timedelta, timezone
 
 from ..monitors import contracts
-from ..monitors.reach import Reach
+from ..monitors.reach import Reach, opt
 
 ID = "C16"
 RULE = (
@@ -650,12 +650,12 @@ def run(shard, rec, rng):
                         lambda self: f"_headers={self._headers!r} _set={sorted(self._set)!r}")
     orig_cc = SR.Response.cache_control.fget
 
-    reach = Reach(rec, {"Response.cache_control": orig_cc, "Response.www_authenticate": SR.Response.www_authenticate.fget,
-                        "Response.content_range": SR.Response.content_range.fget, "Response.content_security_policy": SR.Response.content_security_policy.fget,
-                        "Response.mimetype_params": SR.Response.mimetype_params.fget, "HeaderSet.remove": DS.HeaderSet.remove, "HeaderSet.clear": DS.HeaderSet.clear,
-                        "WWWAuthenticate.__setattr__": DS.WWWAuthenticate.__setattr__, "WWWAuthenticate.__setitem__": DS.WWWAuthenticate.__setitem__,
-                        "UpdateDictMixin.pop": mixins.UpdateDictMixin.pop, "UpdateDictMixin.setdefault": mixins.UpdateDictMixin.setdefault,
-                        "_DictAccessorProperty.__set__": IN._DictAccessorProperty.__set__})
+    reach = Reach(rec, {"Response.cache_control": orig_cc, "Response.www_authenticate": opt(lambda: SR.Response.www_authenticate.fget),
+                        "Response.content_range": opt(lambda: SR.Response.content_range.fget), "Response.content_security_policy": opt(lambda: SR.Response.content_security_policy.fget),
+                        "Response.mimetype_params": opt(lambda: SR.Response.mimetype_params.fget), "HeaderSet.remove": opt(lambda: DS.HeaderSet.remove), "HeaderSet.clear": opt(lambda: DS.HeaderSet.clear),
+                        "WWWAuthenticate.__setattr__": opt(lambda: DS.WWWAuthenticate.__setattr__), "WWWAuthenticate.__setitem__": opt(lambda: DS.WWWAuthenticate.__setitem__),
+                        "UpdateDictMixin.pop": opt(lambda: mixins.UpdateDictMixin.pop), "UpdateDictMixin.setdefault": opt(lambda: mixins.UpdateDictMixin.setdefault),
+                        "_DictAccessorProperty.__set__": opt(lambda: IN._DictAccessorProperty.__set__)})
     cfg = TIERS[shard["_tier"]]
     idx, of = shard["index"], shard["of"]
     n = 0
